@@ -4,6 +4,9 @@ import (
 	"context"
 	"errors"
 	"fmt"
+	"math"
+	"runtime"
+	"strings"
 	"sync"
 	"time"
 
@@ -19,7 +22,9 @@ import (
 // on the harness's virtual clock: a
 // key written with a positive time.Duration d at virtual instant T disappears
 // once the clock has passed T+d. The fake applies the Duration it is handed
-// exactly (go-redis' own EX/PX rounding is outside the sandbox).
+// exactly (go-redis' own EX/PX rounding is outside the sandbox); expiry instants
+// are kept in whole virtual seconds plus a nanosecond rest, saturating, so no
+// clock reading and no duration makes the fake itself overflow.
 type fakeRedis struct {
 	redis.Cmdable
 	mu   sync.Mutex
@@ -37,17 +42,57 @@ type fakeRedis struct {
 	pos   map[string]int // key -> slot
 	own   int            // keys placed by commands (not the foreign ones)
 	gaps  int
+	forgn []string // the foreign keys, in the order they appeared
+
+	// yield: the calling goroutine gives way before each command, as a client
+	// does while its command travels to the server - commands of other clients
+	// get served between two commands of one client (race parts only; it moves
+	// the schedule, it decides nothing)
+	yield bool
 }
 
+// enter starts a command.
+func (f *fakeRedis) enter() {
+	if f.yield {
+		runtime.Gosched()
+	}
+	f.mu.Lock()
+}
+
+// fakeEntry: the key expires once the clock (whole seconds) has passed
+// expS seconds + expNs nanoseconds; hasExp false = no expiry.
 type fakeEntry struct {
-	val string
-	exp int64 // virtual unix nanoseconds; 0 = no expiry
+	val    string
+	hasExp bool
+	expS   int64
+	expNs  int64
+}
+
+// expiring returns e with the expiry instant now + d (d > 0).
+func (f *fakeRedis) expiring(e fakeEntry, d time.Duration) fakeEntry {
+	now, s := f.now(), int64(d/time.Second)
+	if s > math.MaxInt64-now {
+		// beyond the last instant the clock can show: cannot expire
+		e.hasExp = false
+		return e
+	}
+	e.hasExp, e.expS, e.expNs = true, now+s, int64(d%time.Second)
+	return e
+}
+
+// expired: now (whole seconds) is later than the expiry instant.
+func (e fakeEntry) expired(now int64) bool {
+	return e.hasExp && now > e.expS
 }
 
 // ScanCfg is the part of a case that shapes the fake's SCAN replies. Any page
-// size is a legal Redis behaviour (COUNT is a hint, the default is 10).
+// size is a legal Redis behaviour: COUNT is a hint ("the amount of work that
+// should be done at every call"), the server decides how much a call returns,
+// and only an iteration that is continued until the cursor comes back as 0 is
+// complete. The fake therefore pages by the case's own page size whatever COUNT
+// the client sends.
 type ScanCfg struct {
-	Page    int  `json:"page,omitempty"`    // slots examined per SCAN call without COUNT (0 = 10)
+	Page    int  `json:"page,omitempty"`    // slots examined per SCAN call (0 = 10), with or without COUNT
 	Foreign int  `json:"foreign,omitempty"` // keys of another prefix present before the history starts
 	Gap     int  `json:"gap,omitempty"`     // g > 0: another foreign key appears after every g-th new key
 	Reuse   bool `json:"reuse,omitempty"`   // a new key goes into the lowest hole instead of a fresh slot
@@ -104,6 +149,7 @@ func (f *fakeRedis) place(key string, e fakeEntry, foreign bool) {
 	f.slots[slot] = key
 	f.pos[key] = slot
 	if foreign {
+		f.forgn = append(f.forgn, key)
 		return
 	}
 	f.own++
@@ -122,7 +168,33 @@ func (f *fakeRedis) drop(key string) {
 	delete(f.data, key)
 }
 
-func (f *fakeRedis) nowNs() int64 { return f.now() * int64(time.Second) }
+// ForeignCount is the number of foreign keys placed so far.
+func (f *fakeRedis) ForeignCount() int {
+	f.mu.Lock()
+	defer f.mu.Unlock()
+	return len(f.forgn)
+}
+
+// MissingForeign returns a foreign key that the server no longer holds, ""
+// if all are there. Foreign keys never expire and no cache addresses them; a key
+// that starts with one of the given cache prefixes is not counted (it lies in
+// that cache's key space).
+func (f *fakeRedis) MissingForeign(prefixes []string) string {
+	f.mu.Lock()
+	defer f.mu.Unlock()
+next:
+	for _, k := range f.forgn {
+		for _, p := range prefixes {
+			if strings.HasPrefix(k, p) {
+				continue next
+			}
+		}
+		if _, ok := f.data[k]; !ok {
+			return k
+		}
+	}
+	return ""
+}
 
 func (f *fakeRedis) logf(format string, a ...any) {
 	if len(f.log) >= 200 {
@@ -149,7 +221,7 @@ func (f *fakeRedis) lookup(key string) (fakeEntry, bool) {
 	if !ok {
 		return e, false
 	}
-	if e.exp != 0 && f.nowNs() > e.exp {
+	if e.expired(f.now()) {
 		f.drop(key)
 		return fakeEntry{}, false
 	}
@@ -167,17 +239,17 @@ func asString(v interface{}) string {
 }
 
 func (f *fakeRedis) Set(_ context.Context, key string, value interface{}, expiration time.Duration) *redis.StatusCmd {
-	f.mu.Lock()
+	f.enter()
 	defer f.mu.Unlock()
 	old, had := f.lookup(key)
 	e := fakeEntry{val: asString(value)}
 	switch {
 	case expiration > 0: // SET key value EX|PX
-		e.exp = f.nowNs() + int64(expiration)
+		e = f.expiring(e, expiration)
 		f.logf("SET %s ex=%v", key, expiration)
 	case expiration == redis.KeepTTL: // SET key value KEEPTTL
 		if had {
-			e.exp = old.exp
+			e.hasExp, e.expS, e.expNs = old.hasExp, old.expS, old.expNs
 		}
 		f.logf("SET %s KEEPTTL", key)
 	default: // go-redis sends no expiry argument: the key becomes persistent
@@ -188,7 +260,7 @@ func (f *fakeRedis) Set(_ context.Context, key string, value interface{}, expira
 }
 
 func (f *fakeRedis) SetNX(_ context.Context, key string, value interface{}, expiration time.Duration) *redis.BoolCmd {
-	f.mu.Lock()
+	f.enter()
 	defer f.mu.Unlock()
 	f.logf("SETNX %s ex=%v", key, expiration)
 	if expiration < 0 && expiration != redis.KeepTTL {
@@ -200,14 +272,14 @@ func (f *fakeRedis) SetNX(_ context.Context, key string, value interface{}, expi
 	}
 	e := fakeEntry{val: asString(value)}
 	if expiration > 0 {
-		e.exp = f.nowNs() + int64(expiration)
+		e = f.expiring(e, expiration)
 	}
 	f.place(key, e, false)
 	return redis.NewBoolResult(true, nil)
 }
 
 func (f *fakeRedis) Get(_ context.Context, key string) *redis.StringCmd {
-	f.mu.Lock()
+	f.enter()
 	defer f.mu.Unlock()
 	f.logf("GET %s", key)
 	e, ok := f.lookup(key)
@@ -218,7 +290,7 @@ func (f *fakeRedis) Get(_ context.Context, key string) *redis.StringCmd {
 }
 
 func (f *fakeRedis) GetDel(_ context.Context, key string) *redis.StringCmd {
-	f.mu.Lock()
+	f.enter()
 	defer f.mu.Unlock()
 	f.logf("GETDEL %s", key)
 	e, ok := f.lookup(key)
@@ -230,7 +302,7 @@ func (f *fakeRedis) GetDel(_ context.Context, key string) *redis.StringCmd {
 }
 
 func (f *fakeRedis) Expire(_ context.Context, key string, expiration time.Duration) *redis.BoolCmd {
-	f.mu.Lock()
+	f.enter()
 	defer f.mu.Unlock()
 	f.logf("EXPIRE %s %v", key, expiration)
 	e, ok := f.lookup(key)
@@ -241,13 +313,12 @@ func (f *fakeRedis) Expire(_ context.Context, key string, expiration time.Durati
 		f.drop(key)
 		return redis.NewBoolResult(true, nil)
 	}
-	e.exp = f.nowNs() + int64(expiration)
-	f.data[key] = e // the key keeps its slot
+	f.data[key] = f.expiring(e, expiration) // the key keeps its slot
 	return redis.NewBoolResult(true, nil)
 }
 
 func (f *fakeRedis) Del(_ context.Context, keys ...string) *redis.IntCmd {
-	f.mu.Lock()
+	f.enter()
 	defer f.mu.Unlock()
 	f.logf("DEL %v", keys)
 	var n int64
@@ -290,7 +361,8 @@ func toUint64(v interface{}) (uint64, bool) {
 }
 
 // processScan executes one SCAN call: it examines the next `budget` slots from
-// the cursor (COUNT if given, else the case's page size), returns the live keys
+// the cursor (the case's page size; a COUNT argument is checked for syntax and
+// otherwise taken as the hint it is), returns the live keys
 // among them that match, and the position to continue from - 0 once the table is
 // exhausted. Keys present during a whole iteration are therefore returned once;
 // keys deleted or added meanwhile may or may not be (as Redis documents).
@@ -330,9 +402,6 @@ func (f *fakeRedis) processScan(_ context.Context, c redis.Cmder) error {
 	f.mu.Lock()
 	defer f.mu.Unlock()
 	budget := f.cfg.Page
-	if count > 0 {
-		budget = int(count)
-	}
 	start := len(f.slots)
 	if cursor < uint64(len(f.slots)) {
 		start = int(cursor)
@@ -366,7 +435,7 @@ func (f *fakeRedis) ScanLayout(match string) []int {
 	f.mu.Lock()
 	defer f.mu.Unlock()
 	var pages []int
-	now := f.nowNs()
+	now := f.now()
 	for start := 0; start < len(f.slots); start += f.cfg.Page {
 		n := 0
 		for i := start; i < start+f.cfg.Page && i < len(f.slots); i++ {
@@ -374,7 +443,7 @@ func (f *fakeRedis) ScanLayout(match string) []int {
 			if k == "" {
 				continue
 			}
-			if e := f.data[k]; (e.exp == 0 || now <= e.exp) && globMatch(match, k) {
+			if e := f.data[k]; !e.expired(now) && globMatch(match, k) {
 				n++
 			}
 		}
